@@ -9,6 +9,7 @@ package main
 
 import (
 	"encoding/json"
+	"strings"
 	"go/ast"
 	"go/types"
 	"os"
@@ -72,6 +73,7 @@ func (e *Engine) namesSnapshot() map[string][][2]string {
 		if _, ok := out[k]; !ok {
 			out[k] = e.localNames(fc.Fn)
 		}
+		out["params:"+e.ownKey(fc.Fn)] = e.paramNames(fc.Fn)
 	}
 	return out
 }
@@ -124,29 +126,114 @@ func (e *Engine) loadNameSnapshot() {
 	}
 }
 
+// paramNames: receiver, parameters and named results of fn itself, in order.
+func (e *Engine) paramNames(fn *ssa.Function) [][2]string {
+	var out [][2]string
+	qual := func(p *types.Package) string { return p.Name() }
+	for _, p := range fn.Params {
+		out = append(out, [2]string{p.Name(), types.TypeString(p.Type(), qual)})
+	}
+	res := fn.Signature.Results()
+	for i := 0; i < res.Len(); i++ {
+		out = append(out, [2]string{"result:" + res.At(i).Name(), types.TypeString(res.At(i).Type(), qual)})
+	}
+	return out
+}
+
+func (e *Engine) ownKey(fn *ssa.Function) string {
+	if fn.Pkg == nil {
+		return fn.String()
+	}
+	return fn.Pkg.Pkg.Name() + "." + fnKey(fn)
+}
+
 // renamedLocal: the current name of the variable that was called `name` when the contracts were written, or "".
+// Parameters are matched by position (same count, same types). Other variables: the entries common to the old and
+// the new declaration list (same name, same type) are set aside; the old name is resolved only if, among what is
+// left, exactly one old and exactly one new variable have its type.
 func (e *Engine) renamedLocal(fn *ssa.Function, name string) string {
 	if e.nameSnap == nil {
 		e.loadNameSnapshot()
 	}
+	if ps := e.nameSnap["params:"+e.ownKey(fn)]; len(ps) > 0 {
+		cur := e.paramNames(fn)
+		if len(cur) == len(ps) {
+			same := true
+			for i := range ps {
+				if ps[i][1] != cur[i][1] {
+					same = false
+				}
+			}
+			if same {
+				for i := range ps {
+					if ps[i][0] == name && cur[i][0] != name && !strings.HasPrefix(name, "result:") {
+						return cur[i][0]
+					}
+					if ps[i][0] == "result:"+name && cur[i][0] != ps[i][0] && cur[i][0] != "result:" {
+						return strings.TrimPrefix(cur[i][0], "result:")
+					}
+				}
+			}
+		}
+	}
 	snap := e.nameSnap[e.topKey(fn)]
 	cur := e.localNames(fn)
-	if len(snap) == 0 || len(snap) != len(cur) {
+	if len(snap) == 0 {
 		return ""
 	}
-	for i := range snap {
-		if snap[i][1] != cur[i][1] {
-			return ""
+	// set aside common entries (multiset of name+type)
+	count := map[[2]string]int{}
+	for _, c := range cur {
+		count[c]++
+	}
+	var oldLeft [][2]string
+	for _, o := range snap {
+		if count[o] > 0 {
+			count[o]--
+		} else {
+			oldLeft = append(oldLeft, o)
+		}
+	}
+	count = map[[2]string]int{}
+	for _, o := range snap {
+		count[o]++
+	}
+	var newLeft [][2]string
+	for _, c := range cur {
+		if count[c] > 0 {
+			count[c]--
+		} else {
+			newLeft = append(newLeft, c)
+		}
+	}
+	T := ""
+	nOld := 0
+	for _, o := range oldLeft {
+		if o[0] == name {
+			if T != "" && T != o[1] {
+				return ""
+			}
+			T = o[1]
+		}
+	}
+	if T == "" {
+		return ""
+	}
+	for _, o := range oldLeft {
+		if o[1] == T {
+			nOld++
 		}
 	}
 	cand := ""
-	for i := range snap {
-		if snap[i][0] == name && cur[i][0] != name {
-			if cand != "" && cand != cur[i][0] {
-				return ""
-			}
-			cand = cur[i][0]
+	nNew := 0
+	for _, c := range newLeft {
+		if c[1] == T {
+			nNew++
+			cand = c[0]
 		}
 	}
-	return cand
+	if nOld == 1 && nNew == 1 {
+		return cand
+	}
+	return ""
 }
